@@ -106,7 +106,7 @@ class TU:
                 g["init"] = self._expr(n["inner"][-1])
             self.globals.append(g)
         elif k == "RecordDecl" or k == "CXXRecordDecl":
-            fields = [(c["name"], c["type"]["qualType"]) for c in n.get("inner", []) if c.get("kind") == "FieldDecl"]
+            fields = [(c.get("name", ""), c["type"]["qualType"]) for c in n.get("inner", []) if c.get("kind") == "FieldDecl"]
             if fields:
                 self.structs[n.get("name", "anon@%d" % self._line)] = fields
                 self._last_record = fields
@@ -256,7 +256,21 @@ class TU:
         if k in ("NullStmt", "BreakStmt", "ContinueStmt"):
             return [(k.lower()[:-4], line)]
         if k in ("GCCAsmStmt",):
-            return [("asm", line)]
+            # clang's JSON carries the operand expressions but neither the template nor the constraints: keep the source text of
+            # exactly this statement (its AST range) so that a rule can read them; ("asm", text, operand exprs, line)
+            text = None
+            try:
+                r = n.get("range", {})
+                b, e = r.get("begin", {}), r.get("end", {})
+                b = b.get("expansionLoc", b)
+                e = e.get("expansionLoc", e)
+                if "offset" in b and "offset" in e and not b.get("file") and not e.get("file"):
+                    if not hasattr(self, "_src"):
+                        self._src = open(self.main_file, "rb").read()
+                    text = self._src[b["offset"]:e["offset"] + e.get("tokLen", 1)].decode("utf-8", "replace")
+            except (OSError, KeyError):
+                text = None
+            return [("asm", text, tuple(self._expr(c) for c in inner), line)]
         if not k:
             return []
         return [("expr", self._expr(n), line)]
